@@ -76,7 +76,7 @@ PROPS = {
         "assumptions": COMMON_ASSUMPTIONS + ["random inputs up to ~2 KiB; targeted inputs up to 131 KiB (16-bit sums near 65 535 with the octets really present)", "per-case watchdog 20 s (quick) / 60 s (thorough)"],
     },
     "C02": {
-        "mc": DEC_MODELS, "gen": ["decode_readers", "avps_readers", "payload_readers"], "readers": "all",
+        "mc": DEC_MODELS + ["hid_reveal"], "gen": ["decode_readers", "avps_readers", "payload_readers", "reveal"], "readers": "all",
         "rule": "as C01, every input decoded through SliceReader, a monitoring reader that logs each request with the "
                 "octets remaining, and a queue-backed reader; every logged request validated against the Reader contract "
                 "machine; the three outcomes must coincide",
@@ -316,6 +316,11 @@ def owns(prop, ev, tag):
     if prop == "C01":
         return e in DECODE_EVENTS + ("ctl_records",) and (died or tag == "empty-errors")
     if prop == "C02":
+        if e == "reveal":
+            # reveal() drives its own SliceReader, which cannot be replaced by a monitoring reader: an
+            # out-of-range request shows as the slice bounds check (or std's unsafe-precondition check) firing
+            msg = str(ev.get("out", {}).get("v", ""))
+            return died and ev.get("died") is None and any(w in msg for w in ("out of range", "unsafe precondition", "range end index", "range start index"))
         return e in DECODE_EVENTS and tag in ("reader-contract", "reader-diff")
     if prop == "C05":
         return e in ("decode", "decode_avps", "decode_payload", "decode_opts") and "fault" not in ev \
